@@ -860,6 +860,10 @@ func VerifAcquireSHA1(key []byte) hash.Hash   { return hmac.AcquireSHA1(key) }
 func VerifPutSHA1(h hash.Hash)                { hmac.PutSHA1(h) }
 func VerifAcquireSHA256(key []byte) hash.Hash { return hmac.AcquireSHA256(key) }
 func VerifPutSHA256(h hash.Hash)              { hmac.PutSHA256(h) }
+
+// VerifFinalize runs the client's finalizer (the path the runtime takes for an
+// abandoned client).
+func VerifFinalize(c *Client) { clientFinalizer(c) }
 `)
 	if err := os.WriteFile(filepath.Join(root, "verif_gen.go"), []byte(sb.String()), 0o644); err != nil {
 		die("%v", err)
